@@ -57,7 +57,8 @@ class Spec:
         for n, d in doc["exploits"].items():
             s.exploits[str(n)] = dict(service=str(d["service"]), os=norm_os(d["os"]),
                                       prob=float(d["prob"]), cost=float(d["cost"]),
-                                      access=norm_access(d["access"]))
+                                      access=norm_access(d["access"]),
+                                      req=int((doc.get("_req_access") or {}).get(n, USER)))
         s.privescs = {}
         for n, d in doc["privilege_escalation"].items():
             s.privescs[str(n)] = dict(process=str(d["process"]), os=norm_os(d["os"]),
@@ -99,7 +100,8 @@ class Spec:
         for n, d in scn.exploits.items():
             s.exploits[str(n)] = dict(service=str(d["service"]), os=norm_os(d["os"]),
                                       prob=float(d["prob"]), cost=float(d["cost"]),
-                                      access=norm_access(d["access"]))
+                                      access=norm_access(d["access"]),
+                                      req=int(d.get("req_access", USER)))
         s.privescs = {}
         for n, d in scn.privescs.items():
             s.privescs[str(n)] = dict(process=str(d["process"]), os=norm_os(d["os"]),
@@ -177,6 +179,7 @@ class Act:
             self.service = d["service"]
             self.os = d["os"]
             self.prob, self.cost, self.grant = d["prob"], d["cost"], d["access"]
+            self.req = d.get("req", USER)
         elif kind == "privesc":
             self.process = d["process"]
             self.os = d["os"]
